@@ -81,13 +81,20 @@ def run(P, chk, tier, client=False):
             for ek, (reason, premise_ok, ptext) in exc.items():
                 if ek[0] == s.f.name and ek[1] == cls and ek[2] in s.what and (len(ek) < 4 or ek[3] in s.detail):
                     used.add(ek)
-                    ok = bool(premise_ok)
-                    detail = "reviewed exception: %s; premise %s: %s" % (reason, "holds" if premise_ok else "FAILS", ptext)
+                    if premise_ok is None:
+                        ok = None
+                        detail = "reviewed exception: %s; its premise could not be evaluated on this tree: %s" % (reason, ptext)
+                    else:
+                        ok = bool(premise_ok)
+                        detail = "reviewed exception: %s; premise %s: %s" % (reason, "holds" if premise_ok else "FAILS", ptext)
                     break
             else:
                 ok = False
                 if s.ok is None:
                     detail = s.detail + " (no rule of this class discharges it and it is not a reviewed exception)"
+        if ok is None:
+            chk.undecided(rules[cls], s.f, ir.loc(s.node), "%s: %s" % (s.f.name, s.what[:70]), detail)
+            continue
         chk.site(rules[cls], s.f, ir.loc(s.node), "%s: %s" % (s.f.name, s.what[:70]), ok, detail)
     chk.extra["reviewed_exceptions"] = [{"function": k[0], "class": k[1], "site": k[2], "reason": v[0], "premise": v[2], "premise_holds": bool(v[1]),
                                           "matched": k in used} for k, v in sorted(exc.items(), key=lambda kv: tuple(map(str, kv[0])))]
@@ -671,10 +678,16 @@ def cli_exceptions(P, E, exc, c10ok):
     chk2 = report.Check("C08", "quick", P)
     try:
         c08.run(P, chk2, "quick")
-        r1 = [s_ for s_ in chk2.rules["C08.R1"]["sites"]]
-        ok = bool(r1) and all(s_.ok for s_ in r1) and all(s_.ok for s_ in chk2.rules["C08.R3"]["sites"])
     except AnalysisBroken:
-        ok = False
+        pass                    # a later rule of C08 gave up; R1 and R3 may still have been evaluated
+    r1 = [s_ for s_ in chk2.rules.get("C08.R1", {}).get("sites", [])]
+    r3 = chk2.rules.get("C08.R3", {}).get("sites", [])
+    if not r1 or chk2.broken_extra and not r1:
+        ok = None
+    else:
+        ok = all(s_.ok for s_ in r1) and all(s_.ok for s_ in r3)
+        if not ok and any("cannot judge" in m_ and "C08.R1" in m_ for m_ in chk2.broken_extra):
+            ok = None
     ptxt = "C08.R1 re-evaluated: for every hostname limit 100..255, domain length in range and call site the space is in 2..4096 and the name fits"
     exc[("build_hostname", "M2", "(maxlen < buflen ? maxlen : buflen)")] = (
         "the reserve wraps only for a hostname limit smaller than the domain plus 8, outside the configurations C08 covers (local option -M)", ok, ptxt)
